@@ -182,11 +182,22 @@ func (r *Run) opAuthorize(st Step) {
 		if len(cs.RequestURIs) > 0 && ro != "via_uri_unregistered" {
 			loc = cs.RequestURIs[0]
 		}
+		// near misses of a registered request_uri are not registered: "pre-registered" means the exact string
 		switch ro {
-		case "via_uri", "via_uri_unregistered":
+		case "via_uri_case":
+			if i := strings.LastIndex(loc, "/"); i > 8 {
+				loc = loc[:i] + strings.ToUpper(loc[i:])
+			}
+		case "via_uri_hostcase":
+			loc = strings.Replace(loc, "https://ro-", "https://RO-", 1)
+		case "via_uri_query":
+			loc += "?v=2"
+		}
+		switch ro {
+		case "via_uri", "via_uri_unregistered", "via_uri_case", "via_uri_hostcase", "via_uri_query":
 			r.W.Net.Docs[loc] = jwtStr
 			q.Set("request_uri", loc)
-			if ro == "via_uri_unregistered" || len(cs.RequestURIs) == 0 {
+			if ro != "via_uri" || len(cs.RequestURIs) == 0 || !has(cs.RequestURIs, loc) {
 				roVerdict = MustNot
 			}
 		case "both":
@@ -241,7 +252,7 @@ func (r *Run) checkIDTokenConditions(g *Grant, where string) {
 	fmt.Sscanf(g.Params["auth_ago"], "%d", &ago)
 	var maxAge int64
 	fmt.Sscanf(g.Params["max_age"], "%d", &maxAge)
-	prompt := g.Params["prompt"]
+	prompt := splitNonEmpty(g.Params["prompt"]) // a space-delimited LIST of values (OpenID Connect Core 3.1.2.1)
 	r.probe("idtoken-conditions-checked")
 	if g.Params["no_auth_time"] != "" {
 		return // without auth_time the library substitutes "now": not pinned down by the statement
@@ -249,10 +260,13 @@ func (r *Run) checkIDTokenConditions(g *Grant, where string) {
 	if maxAge > 0 && ago >= maxAge+2 {
 		r.violate("C14", "id-token-despite-unsatisfied-condition", "max_age", "an ID token was issued (%s) although the user authenticated %d s before the request and max_age=%d", where, ago, maxAge)
 	}
-	if prompt == "none" && ago <= -2 {
+	if has(prompt, "none") && ago <= -2 {
 		r.violate("C14", "id-token-despite-unsatisfied-condition", "prompt=none", "an ID token was issued (%s) for prompt=none although the user authenticated %d s AFTER the request was made", where, -ago)
 	}
-	if prompt == "login" && ago >= 2 {
+	if has(prompt, "login") && ago >= 2 {
+		if len(prompt) > 1 {
+			r.probe("prompt-list-with-login")
+		}
 		r.violate("C14", "id-token-despite-unsatisfied-condition", "prompt=login", "an ID token was issued (%s) for prompt=login although the user was not re-authenticated (auth_time %d s before the request)", where, ago)
 	}
 	if hs := g.Params["hint_subject"]; hs != "" && hs != g.Subject {
@@ -439,6 +453,8 @@ func (r *Run) opRedeem(st Step) {
 		}
 	case "correct+illegal":
 		ver = correct + " "
+	case "attacker":
+		ver = AttackerVerifier // the verifier of the challenge an attacker tried to slip in at the authorization endpoint
 	}
 	if ver != "" {
 		form.Set("code_verifier", ver)
